@@ -229,6 +229,103 @@ def raw_abort_scenario(given, where, rng):
     return obs
 
 
+def raw_server_scenario(scn, rng):
+    """Scripted raw accepting peer.  scn 'stop-with-silent-peer': accepts, answers one C-ECHO, then says nothing and keeps
+    the connection open; the requesting application times out and leaves (abort + kill must complete).
+    scn 'late-response-then-release': the application sends a request, leaves normally without waiting; the peer answers
+    AFTER the A-RELEASE-RQ and then sends A-RELEASE-RP."""
+    import time
+    from . import wire_ref as W, cmdset, ulrun
+    obs = {'scn': scn, 'given': [], 'reqErr': {'type': 'none', 'f': []}, 'entered': False,
+           'accErr': {'type': 'none', 'f': []}, 'services': [], 'stopped': False}
+    done = threading.Event()
+
+    def echo_rsp(mid):
+        rsp = cmdset.write([(cmdset.TAG_AFF_SOP_CLASS, cmdset.ui('1.2.840.10008.1.1')), (cmdset.TAG_COMMAND_FIELD, cmdset.us(0x8030)),
+                            (cmdset.TAG_MSG_ID_RSP, cmdset.us(mid)), (cmdset.TAG_DS_TYPE, cmdset.us(0x0101)), (cmdset.TAG_STATUS, cmdset.us(0))])
+        return W.enc_pdu({'t': 4, 'pdvs': [{'ctx': 1, 'val': b'\x03' + rsp}]})
+
+    def peer(sock):
+        R.read_pdu(sock)
+        sock.sendall(W.enc_pdu({'t': 2, 'called': b'SRV', 'calling': b'CL', 'items': ulrun.assoc_items(True)}))
+        R.read_pdu(sock)                                   # C-ECHO-RQ
+        if scn == 'stop-with-silent-peer':
+            sock.sendall(echo_rsp(1))
+            R.read_pdu(sock)                               # second C-ECHO-RQ: never answered
+            done.wait(30)                                  # silent, connection kept open
+        else:
+            nxt = R.read_pdu(sock)                         # the A-RELEASE-RQ arrives before we have answered
+            sock.sendall(echo_rsp(1))                      # late response ...
+            time.sleep(0.2)
+            sock.sendall(W.enc_pdu({'t': 6}))              # ... then the release response
+            try:
+                while R.read_pdu(sock, 5) is not None:
+                    pass
+            except Exception:     # noqa
+                pass
+    cl = ae_mod.ClientAE('CL').add_scu(sc.verification_scu)
+    cl.timeout = 1
+    t0 = time.time()
+    with R.Net() as net:
+        net.register(ADDR, peer)
+
+        def app():
+            try:
+                with cl.request_association(REMOTE) as assoc:
+                    obs['entered'] = True
+                    if scn == 'stop-with-silent-peer':
+                        echo = assoc.get_scu(sc.VERIFICATION_SOP_CLASS)
+                        echo(1)
+                        echo(2)                            # times out
+                    else:
+                        msg = dm.CEchoRQMessage()
+                        msg.message_id = 1
+                        msg.sop_class_uid = sc.VERIFICATION_SOP_CLASS
+                        assoc.send(msg, 1)                 # request in flight, leave normally
+            except exceptions.DCMTimeoutError:
+                obs['reqErr'] = {'type': 'DCMTimeoutError', 'f': []}
+            except Exception as e:          # noqa
+                obs['reqErr'] = {'type': type(e).__name__, 'f': []}
+        th = threading.Thread(target=app, daemon=True)
+        th.start()
+        th.join(25)
+        obs['stopped'] = not th.is_alive()
+        done.set()
+        net.wait_all(10)
+        link = net.links[0]
+        obs['r2a'] = wire(link, 'R')
+        obs['a2r'] = wire(link, 'A')
+    obs['handler_finished'] = True
+    return obs
+
+
+def acceptor_stop_scenario(rng):
+    """A scripted raw requesting peer associates, does one C-ECHO, then says nothing and keeps the connection open: the
+    accepting handler times out and must finish (kill() completes) in bounded time."""
+    from . import wire_ref as W, cmdset, ulrun
+    srv = Server()
+    srv.add_scp(sc.verification_scp)
+    srv.timeout = 1
+    obs = {'scn': 'stop-with-silent-peer', 'given': [], 'reqErr': {'type': 'none', 'f': []}, 'entered': False,
+           'accErr': {'type': 'none', 'f': []}, 'services': [], 'stopped': False}
+    sock, link = R.raw_client(srv)
+    sock.sendall(W.enc_pdu({'t': 1, 'called': b'SRV', 'calling': b'RAW', 'items': ulrun.assoc_items(False)}))
+    R.read_pdu(sock)
+    sock.sendall(W.enc_pdu({'t': 4, 'pdvs': [{'ctx': 1, 'val': b'\x03' + cmdset.echo_rq(5)}]}))
+    R.read_pdu(sock)
+    obs['stopped'] = link['done'].wait(25)          # silent peer, connection open
+    try:
+        sock.close()
+    except OSError:
+        pass
+    link['done'].wait(10)
+    obs['r2a'] = wire(link, 'R')
+    obs['a2r'] = wire(link, 'A')
+    obs['services'] = list(srv.services_ran)
+    obs['handler_finished'] = True
+    return obs
+
+
 def main(tier='quick'):
     v = Verdict('C14', tier)
     rng = random.Random(seed())
@@ -246,13 +343,21 @@ def main(tier='quick'):
         for pl in ('partial-command', 'command-announcing-data', 'instead-of-response'):
             plan.append(('raw-acc-abort', (rng.choice([0, 2]), r), pl))
     plan.append(('acc-release', (), None))
+    plan.append(('stop-with-silent-peer', (), None))
+    plan.append(('stop-with-silent-peer', (), 'acceptor'))
+    plan.append(('late-response-then-release', (), None))
     for n in (0, 1, 3):
         plan.append(('req-exit-normal', (), n))
         plan.append(('req-exit-error', (), n))
     cases = []
     for scn, given, pl in plan:
         try:
-            obs = raw_abort_scenario(given, pl, rng) if scn == 'raw-acc-abort' else scenario(scn, given, pl, rng)
+            if scn == 'stop-with-silent-peer' and pl == 'acceptor':
+                obs = acceptor_stop_scenario(rng)
+            elif scn in ('stop-with-silent-peer', 'late-response-then-release'):
+                obs = raw_server_scenario(scn, rng)
+            else:
+                obs = raw_abort_scenario(given, pl, rng) if scn == 'raw-acc-abort' else scenario(scn, given, pl, rng)
         except Exception as exc:      # noqa
             raise Machinery('scenario %s %s %s failed in the harness: %s: %s' % (scn, given, pl, type(exc).__name__, exc))
         obs['placement'] = str(pl)
